@@ -59,6 +59,7 @@ man = {
 }
 fixes = os.path.join(V, "fix_commits.txt")
 if os.path.exists(fixes):
-    man["hooks"]["source_commits"] = [l.split()[0] for l in open(fixes) if l.strip()]
+    # repairs of genuine defects are unguarded "fix:" commits in /repo (not hooks); they are listed here for reference only
+    man["notes"] += " Unguarded fix: commits in /repo (see known_findings.json, 'fixed'): " + "; ".join(l.strip() for l in open(fixes) if l.strip()) + "."
 json.dump(man, open(os.path.join(V, "MANIFEST.json"), "w"), indent=1)
 print("checks:", [c["property_id"] for c in checks], "n/a:", [n["property_id"] for n in na])
